@@ -1,7 +1,10 @@
 package mon
 
 import (
+	"bytes"
 	"errors"
+	"io"
+	"io/ioutil"
 
 	"github.com/tyler-sommer/stick"
 )
@@ -49,6 +52,7 @@ type FaultLoader struct {
 	Inner     stick.Loader
 	FailAt    int
 	BadSource bool
+	BadReader bool // hand out a template whose Contents() reader fails after half of the source
 	Loads     int
 	Names     []string
 }
@@ -57,6 +61,14 @@ func (l *FaultLoader) Load(name string) (stick.Template, error) {
 	l.Loads++
 	l.Names = append(l.Names, name)
 	if l.FailAt > 0 && l.Loads == l.FailAt {
+		if l.BadReader {
+			t, err := l.Inner.Load(name)
+			if err != nil {
+				return nil, err
+			}
+			src, _ := ioutil.ReadAll(t.Contents())
+			return &failingTemplate{name: name, src: src[:len(src)/2]}, nil
+		}
 		if l.BadSource {
 			// a different kind of syntax error from load to load: each is refused by another part of the parser
 			src := BrokenSources[(l.FailAt+len(name))%len(BrokenSources)]
@@ -72,3 +84,18 @@ var BrokenSources = []string{
 	"broken {% if %} {{ ", "ok {% for 1 in b %}x{% endfor %} tail", "ok {% for k, 2 in b %}x{% endfor %}", "ok {% for a in b c %}x{% endfor %}", "ok {{ x is 2 }} tail", "ok {{ x is 'lit' }}",
 	"ok {% zork %}", "ok {{ 'unclosed }}", "ok {% block b %}", "ok {{ a @ b }}", "ok {% include %}", "ok {{ 1 + }}", "ok {% extends 'a' %}{% extends 'b' %}", "ok {% set a %}x", "ok {{ a ? b }}", "ok {# unclosed",
 }
+
+// failingTemplate's reader delivers the first half of the source and then fails.
+type failingTemplate struct {
+	name string
+	src  []byte
+}
+
+func (t *failingTemplate) Name() string { return t.name }
+func (t *failingTemplate) Contents() io.Reader {
+	return io.MultiReader(bytes.NewReader(t.src), failingReader{})
+}
+
+type failingReader struct{}
+
+func (failingReader) Read([]byte) (int, error) { return 0, ErrInjected }
